@@ -625,7 +625,7 @@ _FUZZ_SPECS = [
 
 
 def enum_fuzz(tier, seed):
-    runs = 20000 if tier == "quick" else 3000000
+    runs = 15000 if tier == "quick" else 3000000
     for k in range(8 if tier == "quick" else 16):
         # half of the campaigns start from small valid files, half from an empty corpus
         yield dict(fuzz_seed=seed * 1000 + k + 1, runs=runs, corpus="seeded" if k % 2 == 0 else "empty")
@@ -689,20 +689,20 @@ def _fuzz_excerpt(text):
 
 
 SUBCHECKS = [
-    SubCheck("C10.truncation", run_truncation, strategy=file_case, quick=32, thorough=2000,
+    SubCheck("C10.truncation", run_truncation, strategy=file_case, quick=48, thorough=2000, shards=16,
              rule="every truncation offset of the file (and of the k-th object of a k-object stream)"),
-    SubCheck("C10.structural", run_structural, strategy=file_case, quick=16, thorough=1500,
+    SubCheck("C10.structural", run_structural, strategy=file_case, quick=28, thorough=1500, shards=14,
              rule="every structural byte x 5 values + integer-field substitutions"),
     SubCheck("C10.data", run_data, strategy=data_case, quick=400, thorough=12000,
              rule="20-60 substitutions in array data per file, 75% aimed at offset/id/index/coordinate columns"),
-    SubCheck("C10.raw_tables", run_raw, strategy=raw_case, quick=8, thorough=1000,
+    SubCheck("C10.raw_tables", run_raw, strategy=raw_case, quick=12, thorough=1000, shards=6,
              rule="unsorted, unindexed collections through TableCollection.load: truncation + structural enumeration"),
     SubCheck("C10.data_asan", run_data, strategy=data_case, quick=60, thorough=4000, flavour="asan",
              rule="data-region substitutions on the ASan+UBSan build (silent over-reads become visible)"),
-    SubCheck("C10.struct_asan", run_structural, strategy=file_case, quick=4, thorough=300, flavour="asan",
+    SubCheck("C10.struct_asan", run_structural, strategy=file_case, quick=4, thorough=300, flavour="asan", shards=2,
              rule="structural enumeration on the ASan+UBSan build"),
     SubCheck("C10.libfuzzer", run_fuzz, enumerate=enum_fuzz, quick=1, thorough=1, shards=8, hang_s=4 * 3600,
              rule="libFuzzer (clang, ASan+UBSan) campaigns over tsk_table_collection_loadf with the round-trip / tree-sweep "
-                  "oracle inside the target; 8 x 20000 executions quick, 16 x 3000000 thorough; seeded and empty corpora"),
+                  "oracle inside the target; 8 x 15000 executions quick, 16 x 3000000 thorough; seeded and empty corpora"),
     SubCheck("C10.probe", run_probe, enumerate=enum_probe, quick=0, thorough=0, rule="probe only"),
 ]
